@@ -460,7 +460,10 @@ def make_inputs(rng, spec, prop, thorough=False):
             inp["bitn"] = min(1 << (top + 2), hi + 1, 1 << 12)
             if prop == "C12":
                 inp["bitn"] = min(inp["bitn"], 32)
-            flags = [v for v in vals if 0 <= v <= hi]
+            flags = []
+            for v in vals:
+                if 0 <= v <= hi and v not in flags:
+                    flags.append(v)
             extra = [0, 1 << (top + 1), (1 << top) | 1, 3, 5, 6, (1 << (top + 2)) - 1]
             for b in range(top + 1):
                 if (1 << b) not in vals:
@@ -595,6 +598,15 @@ def witness_neg(name="wneg"):
     return hand_spec(name, [("Level", "int8")],
                      [[(["LevelLow"], T, [lit(-2)]), (["LevelMid"], T, [lit(0)]), (["LevelHigh"], T, [lit(3)])]],
                      [("Level", {})])
+
+
+def witness_alias(name="walias"):
+    """K_enum_dup (fixed): several constants with one value; in the grammar, part of the comparison"""
+    T = ("ident", "Color")
+    return hand_spec(name, [("Color", "int")],
+                     [[(["Red"], T, [lit(1)]), (["Crimson"], T, [lit(1)]), (["Blue"], T, [lit(2)]),
+                       (["ColorFirst"], T, [("ref", "Red")])]],
+                     [("Color", {"json": True})])
 
 
 def witness_big(name="wbig"):
